@@ -2,6 +2,7 @@ import RsomeV.M.Solvers
 import RsomeV.L.Solvers
 import RsomeV.L.ExpCone
 import RsomeV.Gen.Status
+import Mathlib.Data.Rat.Floor
 
 /-! # C11 — the solver interfaces hand the compiled program to the solver unchanged
 
@@ -20,6 +21,12 @@ Deviations that the theorems expose as hypotheses (each with a concrete counter-
   carries a non-negative lower bound (`gurobi_free_head`).
 * `def_sol` / OR-Tools make every non-`'C'` column integral, ECOS only the `'I'`/`'B'` ones: the
   interfaces agree only on the alphabet `C/B/I` (`VtWF`; `defsol_other_letter`).
+* `def_sol` (MILP branch) rounds the bounds of every non-`'C'` column inward with the tolerance
+  `ε = 1/10^9` (`ceil(lb - ε)`, `floor(ub + ε)`; repair: HiGHS returned suboptimal points for
+  fractional integer bounds).  No binary / integral point of the program is lost (`defsol_sound`),
+  an accepted point respects the bounds up to `ε` (`defsol_complete_tol`), and the exact iff
+  `defsol_equiv` holds when no integer lies within `ε` outside of a bound (`BoundsNotNearInt`, true
+  of integral and half-integral bounds - `boundsNotNearInt_of_half`; needed: `defsol_tol_needed`).
 * ECOS' exponential cone is read in the order `(s₀,s₁,s₂) ↦ s₂·exp(s₀/s₂) ≤ s₁`, the same order
   as rsome's `ExpConstr(e1,e2,e3)`/`xmat = [aux0,aux1,aux2]` (`ecos_exp_membership`; confirmed
   numerically against the real ECOS in `test_iface.py`). -/
@@ -34,30 +41,162 @@ variable {K : Type} [Field K] [LinearOrder K] [IsStrictOrderedRing K]
 
 /-! ### def_sol (SciPy `linprog` / `milp`) -/
 
-/-- **`defsol_equiv`**: for a program without cones and a `vtype` over `C/B/I`, the arguments
-`def_sol` passes to `scipy.optimize.linprog` (all-continuous) or `scipy.optimize.milp` (otherwise:
-`b_l = -inf` except on equalities, binaries with `lb' = max(lb,0)`, `ub' = min(ub,1)`,
-`integrality = 1` off `'C'`) are satisfied by exactly the feasible points of the program that are
-binary on `'B'` and integral on `'I'` columns. -/
-theorem defsol_equiv (P : ConeProg K) (vt : ℕ → Char) (E : K → K → K → Prop) (x : ℕ → K)
-    (hq : P.qmat = []) (hx : P.xmat = []) (hvt : VtWF vt P.lp.nc) :
-    (defSol P vt).Feas x ↔ (P.Feas E x ∧ VtOk vt P.lp.nc x) := by
-  rw [coneFeas_nocone P E x hq hx]
+section DefSol
+variable [FloorRing K]
+
+/-- `def_sol`'s data, branch by branch, as statements about the program: the all-continuous branch
+(`linprog`) hands over rows and bounds unchanged; the MILP branch the rows, the per-column bounds
+`milpLb`/`milpUb` (binaries clipped to `[0,1]`, then every non-`'C'` column rounded inward:
+`ceil(lb - ε)`, `floor(ub + ε)`, `ε = 1/10^9`) and integrality off `'C'`. -/
+lemma defSol_feas_iff (P : ConeProg K) (vt : ℕ → Char) (x : ℕ → K) :
+    (defSol P vt).Feas x ↔
+      (∀ i < P.lp.nr, if P.lp.eq i then P.lp.row i x = P.lp.b i else P.lp.row i x ≤ P.lp.b i) ∧
+      if allCont vt P.lp.nc = true then
+        ∀ j < P.lp.nc, LinProg.geLb (x j) (P.lp.lb j) ∧ LinProg.leUb (x j) (P.lp.ub j)
+      else
+        (∀ j < P.lp.nc, LinProg.geLb (x j) (milpLb (vt j) (P.lp.lb j)) ∧
+          LinProg.leUb (x j) (milpUb (vt j) (P.lp.ub j))) ∧
+        ∀ j < P.lp.nc, (vt j != 'C') = true → IsInt (x j) := by
   unfold defSol
   by_cases hc : allCont vt P.lp.nc = true
   · simp only [hc, if_true, DefSolArgs.Feas]
-    rw [linprogFeas_iff, optRowsLe_norows, optRowsEq_norows, linFeas_iff]
-    have := vtOk_of_allCont vt P.lp.nc x hc
+    rw [linprogFeas_iff, optRowsLe_norows, optRowsEq_norows, rows_split]
     tauto
   · simp only [hc, Bool.false_eq_true, if_false, DefSolArgs.Feas]
     rw [milpFeas_iff]
     simp only [dot_row, milp_row_iff]
-    rw [cols_clip_iff vt P.lp.nc hvt]
-    constructor
-    · rintro ⟨h1, h2, h3⟩
-      exact ⟨⟨h1, fun j hj => (h2 j hj).2, fun j hj => (h2 j hj).1⟩, h3⟩
-    · rintro ⟨h, h3⟩
-      exact ⟨h.rows, fun j hj => ⟨h.lbs j hj, h.ubs j hj⟩, h3⟩
+
+/-- **`defsol_sound`**: every feasible point of the program that is binary on `'B'` and integral on
+`'I'` columns satisfies the arguments `def_sol` passes to `scipy.optimize.linprog` / `milp` - the
+inward rounding of the bounds of the non-continuous columns never cuts off such a point (an integer
+`≤ ub` is `≤ floor(ub + ε)`).  No hypothesis on the cones (they are ignored) nor on the bounds; the
+alphabet `C/B/I` is needed because `def_sol` makes *every* non-`'C'` column integral
+(`defsol_other_letter`). -/
+theorem defsol_sound (P : ConeProg K) (vt : ℕ → Char) (E : K → K → K → Prop) (x : ℕ → K)
+    (hvt : VtWF vt P.lp.nc) :
+    (P.Feas E x ∧ VtOk vt P.lp.nc x) → (defSol P vt).Feas x := by
+  rintro ⟨hF, hV⟩
+  have hL := hF.lin
+  rw [defSol_feas_iff]
+  refine ⟨hL.rows, ?_⟩
+  by_cases hc : allCont vt P.lp.nc = true
+  · rw [if_pos hc]
+    exact fun j hj => ⟨hL.lbs j hj, hL.ubs j hj⟩
+  · rw [if_neg hc]
+    have := fun j hj => col_milp_sound (vt j) (hvt j hj) (x j) (P.lp.lb j) (P.lp.ub j)
+      ⟨hL.lbs j hj, hL.ubs j hj⟩ (hV j hj)
+    exact ⟨fun j hj => (this j hj).1, fun j hj => (this j hj).2⟩
+
+/-- **`defsol_complete_tol`**: a vector that satisfies the arguments `def_sol` passes to SciPy
+satisfies every row of the program, is binary on `'B'` and integral on `'I'` columns, and is within
+the bounds of the program - exactly on the continuous columns, up to `ε = 1/10^9` on the others
+(`lb - ε ≤ x`, `x ≤ ub + ε`; on a binary column too: with `ub = -1/10^10` the value `0` is accepted,
+`defsol_tol_needed`).  No hypothesis on the alphabet. -/
+theorem defsol_complete_tol (P : ConeProg K) (vt : ℕ → Char) (x : ℕ → K)
+    (h : (defSol P vt).Feas x) :
+    (∀ i < P.lp.nr, if P.lp.eq i then P.lp.row i x = P.lp.b i else P.lp.row i x ≤ P.lp.b i) ∧
+    VtOk vt P.lp.nc x ∧
+    ∀ j < P.lp.nc,
+      (vt j = 'C' → LinProg.geLb (x j) (P.lp.lb j) ∧ LinProg.leUb (x j) (P.lp.ub j)) ∧
+      (vt j ≠ 'C' → geLbTol (x j) (P.lp.lb j) ∧ leUbTol (x j) (P.lp.ub j)) := by
+  rw [defSol_feas_iff] at h
+  refine ⟨h.1, ?_⟩
+  by_cases hc : allCont vt P.lp.nc = true
+  · have hb := h.2
+    rw [if_pos hc] at hb
+    refine ⟨vtOk_of_allCont vt P.lp.nc x hc, fun j hj => ⟨fun _ => hb j hj, fun hne => ?_⟩⟩
+    exact absurd ((allCont_iff vt P.lp.nc).mp hc j hj) hne
+  · have hb := h.2
+    rw [if_neg hc] at hb
+    have := fun j hj => col_milp_tol (vt j) (x j) (P.lp.lb j) (P.lp.ub j) ⟨hb.1 j hj, hb.2 j hj⟩
+    exact ⟨fun j hj => (this j hj).1, fun j hj => (this j hj).2⟩
+
+/-- `BoundsNotNearInt` spelled out: for every non-continuous column, no integer in `[lb - ε, lb)`
+nor in `(ub, ub + ε]`, `ε = 1/10^9` (nothing is asked of an infinite bound) -/
+theorem boundsNotNearInt_iff (vt : ℕ → Char) (n : ℕ) (lb ub : ℕ → Option K) :
+    BoundsNotNearInt vt n lb ub ↔ ∀ j < n, vt j ≠ 'C' →
+      (∀ l, lb j = some l → ∀ z : ℤ, ¬ (l - 1 / 10 ^ 9 ≤ (z : K) ∧ (z : K) < l)) ∧
+      (∀ u, ub j = some u → ∀ z : ℤ, ¬ (u < (z : K) ∧ (z : K) ≤ u + 1 / 10 ^ 9)) := by
+  unfold BoundsNotNearInt
+  apply forall_congr'; intro j
+  apply imp_congr_right; intro _
+  apply imp_congr_right; intro _
+  apply and_congr
+  · cases lb j with
+    | none => simp [LbFar]
+    | some l => simp [LbFar, intEps]
+  · cases ub j with
+    | none => simp [UbFar]
+    | some u => simp [UbFar, intEps]
+
+/-- **`defsol_equiv`**: for a program without cones, a `vtype` over `C/B/I` and bounds of the
+non-continuous columns that are not within `ε` outside of an integer (`BoundsNotNearInt`: no integer
+in `(ub, ub + ε]` nor in `[lb - ε, lb)`), the arguments `def_sol` passes to
+`scipy.optimize.linprog` (all-continuous) or `scipy.optimize.milp` (otherwise: `b_l = -inf` except
+on equalities, binaries with `lb' = max(lb,0)`, `ub' = min(ub,1)`, then `ceil(lb' - ε)`,
+`floor(ub' + ε)` on every non-`'C'` column, `integrality = 1` off `'C'`) are satisfied by exactly the
+feasible points of the program that are binary on `'B'` and integral on `'I'` columns.  (Without
+the hypothesis only `defsol_sound` and `defsol_complete_tol` hold.) -/
+theorem defsol_equiv (P : ConeProg K) (vt : ℕ → Char) (E : K → K → K → Prop) (x : ℕ → K)
+    (hq : P.qmat = []) (hx : P.xmat = []) (hvt : VtWF vt P.lp.nc)
+    (hb : BoundsNotNearInt vt P.lp.nc P.lp.lb P.lp.ub) :
+    (defSol P vt).Feas x ↔ (P.Feas E x ∧ VtOk vt P.lp.nc x) := by
+  refine ⟨fun h => ?_, defsol_sound P vt E x hvt⟩
+  rw [coneFeas_nocone P E x hq hx]
+  rw [defSol_feas_iff] at h
+  by_cases hc : allCont vt P.lp.nc = true
+  · have h2 := h.2
+    rw [if_pos hc] at h2
+    exact ⟨⟨h.1, fun j hj => (h2 j hj).2, fun j hj => (h2 j hj).1⟩, vtOk_of_allCont vt P.lp.nc x hc⟩
+  · have h2 := h.2
+    rw [if_neg hc] at h2
+    have := fun j hj => (col_milp_iff (vt j) (hvt j hj) (x j) (P.lp.lb j) (P.lp.ub j) (hb j hj)).mp
+      ⟨h2.1 j hj, h2.2 j hj⟩
+    exact ⟨⟨h.1, fun j hj => (this j hj).1.2, fun j hj => (this j hj).1.1⟩, fun j hj => (this j hj).2⟩
+
+/-- integral and half-integral bounds are never within `ε` outside of an integer: the smallest
+integer above `k/2` is at least `k/2 + 1/2` -/
+lemma lbFar_half (k : ℤ) : LbFar (some ((k : K) / 2)) := by
+  rintro z ⟨h1, h2⟩
+  have e := intEps_lt_one (K := K)
+  have e0 := intEps_pos (K := K)
+  have a : ((2 * z : ℤ) : K) < ((k : ℤ) : K) := by push_cast; linarith
+  have a' : 2 * z < k := by exact_mod_cast a
+  have b' : 2 * z + 1 ≤ k := by omega
+  have b : ((2 * z + 1 : ℤ) : K) ≤ ((k : ℤ) : K) := by exact_mod_cast b'
+  push_cast at b
+  -- z ≤ k/2 - 1/2 < k/2 - ε
+  have hhalf : intEps < (1 : K) / 2 := by
+    unfold intEps; rw [div_lt_div_iff_of_pos_left one_pos (pow_pos (by norm_num) 9) (by norm_num)]
+    norm_num
+  linarith
+
+lemma ubFar_half (k : ℤ) : UbFar (some ((k : K) / 2)) := by
+  rintro z ⟨h1, h2⟩
+  have a : ((k : ℤ) : K) < ((2 * z : ℤ) : K) := by push_cast; linarith
+  have a' : k < 2 * z := by exact_mod_cast a
+  have b' : k + 1 ≤ 2 * z := by omega
+  have b : ((k + 1 : ℤ) : K) ≤ ((2 * z : ℤ) : K) := by exact_mod_cast b'
+  push_cast at b
+  have hhalf : intEps < (1 : K) / 2 := by
+    unfold intEps; rw [div_lt_div_iff_of_pos_left one_pos (pow_pos (by norm_num) 9) (by norm_num)]
+    norm_num
+  linarith
+
+/-- `BoundsNotNearInt` holds whenever every finite bound of a non-continuous column is an integer
+or a half-integer (`k/2`, `k ∈ ℤ`) - in particular for the integral bounds of an ordinary MILP -/
+theorem boundsNotNearInt_of_half (vt : ℕ → Char) (n : ℕ) (lb ub : ℕ → Option K)
+    (hl : ∀ j < n, vt j ≠ 'C' → ∀ l, lb j = some l → ∃ k : ℤ, l = (k : K) / 2)
+    (hu : ∀ j < n, vt j ≠ 'C' → ∀ u, ub j = some u → ∃ k : ℤ, u = (k : K) / 2) :
+    BoundsNotNearInt vt n lb ub := by
+  intro j hj hne
+  constructor
+  · cases h : lb j with
+    | none => trivial
+    | some l => obtain ⟨k, rfl⟩ := hl j hj hne l h; exact lbFar_half k
+  · cases h : ub j with
+    | none => trivial
+    | some u => obtain ⟨k, rfl⟩ := hu j hj hne u h; exact ubFar_half k
 
 /-- in the MILP branch every non-`'C'` column is declared integral -/
 lemma defSol_feas_int (P : ConeProg K) (vt : ℕ → Char) (x : ℕ → K)
@@ -71,6 +210,8 @@ lemma defSol_feas_int (P : ConeProg K) (vt : ℕ → Char) (x : ℕ → K)
 theorem defsol_cost (P : ConeProg K) (vt : ℕ → Char) : (defSol P vt).c = P.lp.c := by
   unfold defSol
   by_cases h : allCont vt P.lp.nc = true <;> simp [h, DefSolArgs.c]
+
+end DefSol
 
 /-! ### ECOS -/
 
@@ -393,15 +534,93 @@ def P1 : ConeProg ℚ where
   qmat := []
   xmat := []
 
-/-- `defsol_equiv` at a concrete MILP: the bounds handed to `milp` are `[max(-3,0), min(7,1)]` -/
+/-- `defsol_equiv` at a concrete MILP: the bounds handed to `milp` are `[max(-3,0), min(7,1)]`
+(integral bounds: `BoundsNotNearInt` holds) -/
 example (E : ℚ → ℚ → ℚ → Prop) (x : ℕ → ℚ) :
     (defSol P1 (fun _ => 'B')).Feas x ↔ (P1.Feas E x ∧ VtOk (fun _ => 'B') 1 x) :=
   defsol_equiv P1 _ E x rfl rfl (fun _ _ => Or.inr (Or.inl rfl))
+    (boundsNotNearInt_of_half _ _ _ _
+      (fun _ _ _ l hl => ⟨-6, by simp only [P1, Option.some.injEq] at hl; rw [← hl]; norm_num⟩)
+      (fun _ _ _ u hu => ⟨14, by simp only [P1, Option.some.injEq] at hu; rw [← hu]; norm_num⟩))
 
 example : (match defSol P1 (fun _ => 'B') with
     | .milp d => (d.lb 0, d.ub 0, d.integrality 0) = (some 0, some 1, true)
     | .linprog _ => False) := by
-  simp [defSol, allCont, lbBin, ubBin, P1]
+  simp [defSol, allCont, milpLb, milpUb, lbRound, ubRound, intEps, lbBin, ubBin, P1]
+  norm_num [Int.ceil_eq_iff, Int.floor_eq_iff]
+
+/-- a one-column program `-1/2 ≤ x₀ ≤ 3/2` (no rows) -/
+def P2 : ConeProg ℚ where
+  lp := { nr := 0, nc := 1, a := fun _ _ => 0, b := fun _ => 0, eq := fun _ => false
+          ub := fun _ => some (3/2), lb := fun _ => some (-1/2), c := fun _ => -1 }
+  st := fun _ _ => false
+  qmat := []
+  xmat := []
+
+/-- **fractional bounds of an integer column are rounded inward**: with `x₀` integer and
+`-1/2 ≤ x₀ ≤ 3/2` the solver receives `lb = ceil(-1/2 - ε) = 0`, `ub = floor(3/2 + ε) = 1` -/
+example : (match defSol P2 (fun _ => 'I') with
+    | .milp d => (d.lb 0, d.ub 0, d.integrality 0) = (some 0, some 1, true)
+    | .linprog _ => False) := by
+  simp [defSol, allCont, milpLb, milpUb, lbRound, ubRound, intEps, P2]
+  norm_num [Int.ceil_eq_iff, Int.floor_eq_iff]
+
+/-- on a continuous column the same bounds are handed over unchanged (all-continuous: `linprog`) -/
+example : (match defSol P2 (fun _ => 'C') with
+    | .milp _ => False
+    | .linprog d => (d.lb 0, d.ub 0) = (some (-1/2), some (3/2))) := by
+  simp [defSol, allCont, P2]
+
+/-- integral and half-integral bounds satisfy `BoundsNotNearInt` (here `-1/2`, `3/2`; `P1`: `-3`, `7`) -/
+example : BoundsNotNearInt (fun _ => 'I') P2.lp.nc P2.lp.lb P2.lp.ub :=
+  boundsNotNearInt_of_half _ _ _ _
+    (fun _ _ _ l hl => ⟨-1, by simp only [P2, Option.some.injEq] at hl; rw [← hl]; norm_num⟩)
+    (fun _ _ _ u hu => ⟨3, by simp only [P2, Option.some.injEq] at hu; rw [← hu]; norm_num⟩)
+
+example : BoundsNotNearInt (fun _ => 'B') P1.lp.nc P1.lp.lb P1.lp.ub :=
+  boundsNotNearInt_of_half _ _ _ _
+    (fun _ _ _ l hl => ⟨-6, by simp only [P1, Option.some.injEq] at hl; rw [← hl]; norm_num⟩)
+    (fun _ _ _ u hu => ⟨14, by simp only [P1, Option.some.injEq] at hu; rw [← hu]; norm_num⟩)
+
+/-- hence `defsol_equiv` at the program with the fractional bounds -/
+example (E : ℚ → ℚ → ℚ → Prop) (x : ℕ → ℚ) :
+    (defSol P2 (fun _ => 'I')).Feas x ↔ (P2.Feas E x ∧ VtOk (fun _ => 'I') 1 x) :=
+  defsol_equiv P2 _ E x rfl rfl (fun _ _ => Or.inr (Or.inr rfl))
+    (boundsNotNearInt_of_half _ _ _ _
+      (fun _ _ _ l hl => ⟨-1, by simp only [P2, Option.some.injEq] at hl; rw [← hl]; norm_num⟩)
+      (fun _ _ _ u hu => ⟨3, by simp only [P2, Option.some.injEq] at hu; rw [← hu]; norm_num⟩))
+
+/-- a binary column with the upper bound `-1/10^10` (no rows): infeasible, but within `ε` of `0` -/
+def P3 : ConeProg ℚ where
+  lp := { nr := 0, nc := 1, a := fun _ _ => 0, b := fun _ => 0, eq := fun _ => false
+          ub := fun _ => some (-1 / 10 ^ 10), lb := fun _ => none, c := fun _ => 1 }
+  st := fun _ _ => false
+  qmat := []
+  xmat := []
+
+/-- **the tolerance is really there** (why `defsol_equiv` needs `BoundsNotNearInt` and
+`defsol_complete_tol` is stated up to `ε`, also on binary columns): with `x₀` binary and
+`x₀ ≤ -1/10^10` the solver receives `ub = floor(min(-1/10^10, 1) + 1/10^9) = 0` and accepts `x₀ = 0`,
+which violates the bound of the program. -/
+theorem defsol_tol_needed :
+    (defSol P3 (fun _ => 'B')).Feas (fun _ => 0) ∧
+    ¬ P3.Feas (fun _ _ _ => True) (fun _ => (0 : ℚ)) ∧
+    ¬ BoundsNotNearInt (fun _ => 'B') P3.lp.nc P3.lp.lb P3.lp.ub := by
+  refine ⟨?_, ?_, ?_⟩
+  · rw [defSol_feas_iff]
+    refine ⟨fun i hi => by simp [P3] at hi, ?_⟩
+    rw [if_neg (by decide)]
+    refine ⟨fun j _ => ?_, fun j _ _ => ⟨0, by simp⟩⟩
+    simp [milpLb, milpUb, lbRound, ubRound, intEps, lbBin, ubBin, P3, LinProg.geLb, LinProg.leUb]
+    norm_num [Int.ceil_le, Int.le_floor]
+  · intro h
+    have := h.lin.ubs 0 (by simp [P3])
+    simp [P3, LinProg.leUb] at this
+    exact absurd this (by norm_num)
+  · intro h
+    have := (h 0 (by simp [P3]) (by decide)).2
+    simp only [P3, UbFar, intEps] at this
+    exact this 0 (by norm_num)
 
 /-- `ortools_equiv` / `gurobi_equiv` at the same program -/
 example (E : ℚ → ℚ → ℚ → Prop) (x : ℕ → ℚ) :
